@@ -19,16 +19,16 @@ VALIDATORS = ['_util.check_input', '_util.check_input_tuples',
               'base_metric._PairsClassifierMixin.set_threshold']
 
 
-def data_args(f):
+def data_args(f, labels=True):
   ps = f.params()[1:]
   out = {}
   for i, p in enumerate(ps):
-    if i == 0 or p in LABEL_NAMES:
+    if i == 0 or (labels and p in LABEL_NAMES):
       out[p] = V(frozenset([('raw', p)]), origin=('param', p))
   return out
 
 
-def rule_taint(repo, rep, pid='C06'):
+def rule_taint(repo, rep, labels=True):
   R = 'TAINT:validation-dominates-use'
   rep.rule(R, 'in every public data-taking method the raw data / label '
            'argument flows only into the validators (check_input via '
@@ -48,7 +48,7 @@ def rule_taint(repo, rep, pid='C06'):
     _, ts_expr = repo.class_attr(c, '_tuple_size')
     ts = ast.literal_eval(ts_expr) if ts_expr is not None else None
     for name, f in methods_of(repo, c, DATA_METHODS):
-      args = data_args(f)
+      args = data_args(f, labels)
       if not args:
         continue
       n += 1
